@@ -9,6 +9,7 @@ Lemma rfc_expand_abs n origin a : rfc_expand n origin = Ok a -> is_absolute a = 
 Proof.
   unfold rfc_expand. destruct (is_absolute n) eqn:E; [intros H; inversion H; now subst|].
   destruct origin as [o|]; [|discriminate]. destruct (is_absolute o) eqn:Eo; [|discriminate].
+  destruct (wire_length n + wire_length o >? 255); [discriminate|].
   intros H; inversion H; subst. destruct o as [|x o']; [discriminate|].
   now rewrite is_absolute_app.
 Qed.
@@ -19,6 +20,7 @@ Lemma absolutize_rfc n origin a :
 Proof.
   unfold absolutize, rfc_expand. destruct (is_absolute n) eqn:E; [auto|].
   destruct origin as [o|]; [|discriminate]. destruct (is_absolute o); [|discriminate].
+  destruct (wire_length n + wire_length o >? 255); [discriminate|].
   intros H Hv; inversion H; subst. unfold derelativize, concatenate. rewrite E. cbn [negb andb].
   now apply mk_name_valid.
 Qed.
@@ -33,14 +35,14 @@ Lemma header_length r : length (rrsig_header r) = 18%nat.
 Proof. reflexivity. Qed.
 
 (* wire[:18] of the RRSIG rdata is the fixed part, whatever the signer name is *)
-Lemma rrsig_prefix r signer :
-  is_absolute signer = true ->
-  exists w, rrsig_to_wire r (Some signer) false = Ok w /\ firstn 18 w = rrsig_header r.
+Lemma rrsig_prefix r origin signer :
+  rfc_expand (r_signer r) origin = Ok signer ->
+  exists w, rrsig_to_wire r origin false = Ok w /\ firstn 18 w = rrsig_header r.
 Proof.
-  intros Hs. unfold rrsig_to_wire. rewrite to_wire_rfc. unfold rfc_expand. rewrite Hs.
-  destruct (is_absolute (r_signer r)); cbn [bind]; eexists; (split; [reflexivity|]);
-    change 18%nat with (length (rrsig_header r) + 0)%nat; rewrite firstn_app_2; cbn [firstn];
-    apply app_nil_r.
+  intros Hs. unfold rrsig_to_wire. rewrite to_wire_rfc, Hs. cbn [bind].
+  eexists; (split; [reflexivity|]).
+  change 18%nat with (length (rrsig_header r) + 0)%nat. rewrite firstn_app_2. cbn [firstn].
+  apply app_nil_r.
 Qed.
 
 (* ---------- wildcard label reduction ---------- *)
@@ -147,7 +149,7 @@ Proof.
   unfold make_rrsig_data.
   rewrite (absolutize_rfc _ _ _ Es Vs). cbn [bind].
   pose proof (rfc_expand_abs _ _ _ Es) as As. pose proof (rfc_expand_abs _ _ _ Eo) as Ao.
-  destruct (rrsig_prefix r signer As) as (w & Ew & Fw). rewrite Ew. cbn [bind]. rewrite Fw.
+  destruct (rrsig_prefix r origin signer Es) as (w & Ew & Fw). rewrite Ew. cbn [bind]. rewrite Fw.
   rewrite (to_wire_abs signer true As). cbn [bind].
   rewrite (absolutize_rfc _ _ _ Eo Vo). cbn [bind].
   unfold rfc_label_count in *.
@@ -179,7 +181,7 @@ Proof.
   intros Es Vs Eo Vo Hl. unfold make_rrsig_data.
   rewrite (absolutize_rfc _ _ _ Es Vs). cbn [bind].
   pose proof (rfc_expand_abs _ _ _ Es) as As.
-  destruct (rrsig_prefix r signer As) as (w & Ew & Fw). rewrite Ew. cbn [bind].
+  destruct (rrsig_prefix r origin signer Es) as (w & Ew & Fw). rewrite Ew. cbn [bind].
   rewrite (to_wire_abs signer true As). cbn [bind].
   rewrite (absolutize_rfc _ _ _ Eo Vo). cbn [bind].
   unfold rfc_label_count in Hl.
